@@ -17,7 +17,7 @@ def _two_on_worker(b, opt=False):
 
 
 OBJECTIVES = ["none", "makespan", "flowtime", "priorities", "start_latest", "start_earliest", "greatest_start",
-              "min_expr", "max_expr", "min_bounded", "max_bounded", "cost", "two_min", "two_max"]
+              "min_expr", "max_expr", "min_bounded", "max_bounded", "cost", "two_min", "two_max", "max_buffer", "min_buffer"]
 
 
 def add_objective(b, name, a, c, w=None):
@@ -48,6 +48,10 @@ def add_objective(b, name, a, c, w=None):
     elif name == "max_bounded":
         i = b.ind("IndicatorFromMathExpression", name="EB", expr=sub(const(b.p["H"]), start(a)), bounds=[0, b.p["H"]])
         b.obj("ObjectiveMaximizeIndicator", ind=i, kind="maximize", weight=1)
+    elif name in ("max_buffer", "min_buffer"):
+        i = b.ind("IndicatorMaxBufferLevel", buffer=1, by_objective=True)
+        b.obj("ObjectiveMaximizeMaxBufferLevel" if name == "max_buffer" else "ObjectiveMinimizeMaxBufferLevel", ind=i,
+              kind="maximize" if name == "max_buffer" else "minimize", buffer=1)
     elif name == "cost":
         i = b.ind("IndicatorResourceCost", ress=[res_worker(x) for x in w], by_objective=True)
         b.obj("ObjectiveMinimizeResourceCost", ind=i, ress=[res_worker(x) for x in w])
@@ -95,7 +99,7 @@ def pool(objectives, shapes=("plain", "optional", "select", "variable", "buffer"
             ws = [w]
             bf = b.buffer("Bf", initial=1, lower=0)
             b.unload(a, bf, 1)
-            b.load(c, bf, 1)
+            b.load(c, bf, 2)
         elif shape == "infeasible":
             a, c, w = _two_on_worker(b)
             ws = [w]
@@ -108,6 +112,8 @@ def pool(objectives, shapes=("plain", "optional", "select", "variable", "buffer"
             b.require(a, worker=w)
             ws = [w]
         if on == "cost" and shape in ("plain", "optional", "buffer", "infeasible"):
+            continue
+        if on in ("max_buffer", "min_buffer") and shape != "buffer":
             continue
         if on in ("two_min", "two_max") and shape == "single":
             continue
